@@ -1625,6 +1625,8 @@ class Interp:
         if isinstance(v, (VFunc, VClass)):
             return z3.BoolVal(name in ('Callable',) if isinstance(v, VFunc) else name == 'type')
         if isinstance(v, VModel):
+            if hasattr(v, 'isinstance_of'):
+                return v.isinstance_of(self, name)       # contract-defined model with a symbolic type tag
             return z3.BoolVal(name in getattr(v, 'py_types', ()))
         raise Unsupported('isinstance(%r, %s)' % (v, name))
 
